@@ -4,5 +4,7 @@ S="$1"; P="$2"; T="${3:-quick}"
 cd /repo && { git apply "$S/patch.diff" 2>/dev/null || git apply --3way "$S/patch.diff" 2>/dev/null; } || { echo "patch does not apply"; exit 2; }
 cd /verif && ./check "$P" --tier "$T" > /tmp/try_seed.out 2>&1; rc=$?
 cd /repo && git reset -q --hard HEAD
+# (leave no harness binary behind that was built with the change)
+(cd /verif/harness && CARGO_NET_OFFLINE=true cargo build --offline >/dev/null 2>&1)
 grep -E "VIOLATION|KNOWN|theorems" /tmp/try_seed.out | head -5
 echo "rc=$rc"
